@@ -474,7 +474,13 @@ def _code_gen(ast_nodes: list[AstNode], resolver: Resolver, macro_definitions: M
         file_info = _get_file_info(node)
         generator = generators.get(node.kind)
         if generator:
-            code += generator(node, resolver, macro_definitions, file_info)  # type:ignore
+            try:
+                code += generator(node, resolver, macro_definitions, file_info)  # type:ignore
+            except NodeError:
+                raise
+            except Exception as e:
+                # whatever goes wrong while a statement is expanded is reported at that statement.
+                raise NodeError(f"{type(e).__name__}: {e}", file_info) from e
         else:
             raise RuntimeError("Left over node", node)
 
